@@ -79,6 +79,10 @@ func (d *downloaderPP) RuntimeData(ctx context.Context) (sync.RuntimeData, error
 }
 
 func (d *downloaderPP) Download(ctx context.Context, fromBlock uint64, downloadedCh chan sync.EVMBlock) {
+	if fromBlock == 0 {
+		fromBlock = 1 // the genesis block carries no events; keeps fromBlock-1 below from wrapping around
+	}
+
 	for {
 		select {
 		case <-ctx.Done():
@@ -89,11 +93,33 @@ func (d *downloaderPP) Download(ctx context.Context, fromBlock uint64, downloade
 		default:
 		}
 
-		// Wait for new blocks before processing
-		fromBlock = d.WaitForNewBlocks(ctx, fromBlock)
-		for _, block := range d.GetEventsByBlockRange(ctx, fromBlock, fromBlock) {
+		// Wait until the chain has reached fromBlock, the next block to download. Any number of blocks may
+		// have been produced since the previous poll, therefore the whole range [fromBlock, toBlock] is
+		// downloaded, not just the tip.
+		toBlock := d.WaitForNewBlocks(ctx, fromBlock-1)
+		if toBlock < fromBlock {
+			continue // context cancelled
+		}
+
+		blocks := d.GetEventsByBlockRange(ctx, fromBlock, toBlock)
+		if ctx.Err() != nil {
+			continue // the range was not downloaded completely
+		}
+		for _, block := range blocks {
 			downloadedCh <- *block
 		}
+
+		// Report the last block of the range even if it carries no events (as the generic EVM downloader does),
+		// so that the last processed block follows the tip and the tip is tracked by the reorg detector
+		if len(blocks) == 0 || blocks[len(blocks)-1].Num < toBlock {
+			header, isCanceled := d.GetBlockHeader(ctx, toBlock)
+			if isCanceled {
+				continue
+			}
+			downloadedCh <- sync.EVMBlock{EVMBlockHeader: header}
+		}
+
+		fromBlock = toBlock + 1
 	}
 }
 
